@@ -1380,6 +1380,9 @@ func closeOnce(c *core.Ctx, onlyPkg string) {
 			return true
 		})
 	})
+	if n == 0 {
+		c.Pass(onlyPkg+"|no-channel-field-closed", onlyPkg, "no channel held in a struct field is closed in this scope")
+	}
 	c.Stat("close_sites", n)
 }
 
